@@ -1,1 +1,143 @@
-From VP Require Import Base.Tactics Coord.Model.
+(* Property theorems for the cluster coordinator: C32 (bookkeeping) and C33 (placement, failure detection).
+   Only statements; proofs are in ProofsInv.v / ProofsC33.v.  Model: Coord/Model.v, vocabulary: Coord/Spec.v. *)
+From Coq Require Import Permutation.
+From VP Require Import Base.Tactics Coord.Model Coord.Spec Coord.ProofsMap Coord.ProofsInv Coord.ProofsC33.
+Open Scope N_scope.
+
+(* ================================================================ C32 *)
+(* A history is any list of steps; the plan phase and the commit phase of a deploy, a teardown and a
+   manual migration are separate steps, so every interleaving of in-flight operations with every
+   other operation, with every outcome vector, is a history.  For every history that satisfies the
+   stated assumptions at each step (heartbeats report the coordinator's count, registrations report 0,
+   the replica names of a spec are distinct) and never takes a step of a recorded finding class,
+   the final state (hence every intermediate state) is consistent. *)
+Theorem C32_consistent_under_any_interleaving :
+  forall timeout ops,
+    all_steps assumed (init timeout) ops = true ->
+    some_step known (init timeout) ops = false ->
+    Consistent (sc (run (init timeout) ops)).
+Proof.
+  intros timeout ops Ha Hk. apply Inv_Consistent. now apply (run_inv ops (init timeout) (init_inv timeout) Ha Hk).
+Qed.
+
+(* The facts that make stale plans harmless: whatever plan is committed, in whatever state. *)
+Theorem C32_any_migration_commit_preserves : forall c m ok, Inv c -> Inv (fst (commit_migrate c m ok)).
+Proof. exact commit_migrate_inv. Qed.
+Theorem C32_any_teardown_commit_preserves : forall c g, Inv c -> Inv (commit_teardown c g).
+Proof. exact commit_teardown_inv. Qed.
+Theorem C32_any_deploy_commit_preserves :
+  forall c spec tasks outs, NoDup (map tname tasks) -> Inv c -> Inv (commit_deploy c spec tasks outs).
+Proof. exact commit_deploy_inv. Qed.
+
+(* the hypotheses are satisfiable by a history that exercises plan/commit interleaving, failover and rebalance *)
+Definition example_history : list op :=
+  [ORegister 1 4 10 0; ORegister 2 4 10 0; ORegister 3 2 10 0;
+   OPlanDeploy [mkP 1 (Some 1) 1; mkP 2 None 2] [2; 1; 3]; OCommitDeploy 0 [true; true; false];
+   OPlanMigrate 16 0 2; OPlanMigrate 16 0 3; OPlanTeardown 0; OCommitMigrate 1 true; OCommitMigrate 2 true;
+   OAdvance 4; OHeartbeat 1 0; OHeartbeat 3 0; OAdvance 2; OSweep;
+   OFailover 2 [true; true] [3; 2; 1] [(0, 16); (0, 33); (0, 34)];
+   ORebalance [true] [1; 3; 2] [(0, 34); (0, 16); (0, 33)]].
+Example C32_hypotheses_satisfiable :
+  all_steps assumed (init 5) example_history = true /\ some_step known (init 5) example_history = false /\
+  map (fun e => (fst e, wasg (snd e))) (workers (sc (run (init 5) example_history))) = [(1, [33]); (2, []); (3, [16])].
+Proof. vm_compute. auto. Qed.
+
+(* Recorded finding classes: each is a real counterexample of the faithful model. *)
+Theorem C32_reregister_live_worker_refuted :
+  exists ops, all_steps assumed (init 5) ops = true /\ some_step known_reregister (init 5) ops = true /\
+              ~ Consistent (sc (run (init 5) ops)).
+Proof.
+  exists [ORegister 1 4 10 0; OPlanDeploy [mkP 1 None 1] [1]; OCommitDeploy 0 [true]; ORegister 1 4 10 0].
+  split; [reflexivity|]. split; [reflexivity|]. intros [_ H].
+  destruct (H 1 (mkW WReady 0 10 4 [] 0) eq_refl) as [HP _]. vm_compute in HP.
+  apply Permutation_nil in HP. discriminate.
+Qed.
+
+Theorem C32_deregister_live_worker_refuted :
+  exists ops, all_steps assumed (init 5) ops = true /\ some_step known_deregister (init 5) ops = true /\
+              ~ Consistent (sc (run (init 5) ops)).
+Proof.
+  exists [ORegister 1 4 10 0; OPlanDeploy [mkP 1 None 1] [1]; OCommitDeploy 0 [true]; ODeregister 1].
+  split; [reflexivity|]. split; [reflexivity|]. intros [H _].
+  destruct (H 0 (mkG [mkP 1 None 1] [(16, mkD 1 DRunning true 0)] GRunning) 16 (mkD 1 DRunning true 0) eq_refl eq_refl eq_refl) as [wk Hw].
+  vm_compute in Hw. discriminate.
+Qed.
+
+Theorem C32_drain_force_deregister_refuted :
+  exists ops, all_steps assumed (init 5) ops = true /\ some_step known_drain (init 5) ops = true /\
+              ~ Consistent (sc (run (init 5) ops)).
+Proof.
+  exists [ORegister 1 4 10 0; ORegister 2 4 10 0; OPlanDeploy [mkP 1 (Some 1) 1] [1; 2]; OCommitDeploy 0 [true];
+          ODrain 1 [false] [1; 2] [(0, 16)]].
+  split; [reflexivity|]. split; [reflexivity|]. intros [H _].
+  destruct (H 0 (mkG [mkP 1 (Some 1) 1] [(16, mkD 1 DRunning true 0)] GRunning) 16 (mkD 1 DRunning true 0) eq_refl eq_refl eq_refl) as [wk Hw].
+  vm_compute in Hw. discriminate.
+Qed.
+
+(* ================================================================ C33 *)
+(* A new pipeline is planned only on an available worker (registered, Ready, below capacity), and a
+   pinned pipeline on its pinned worker whenever that worker is available: complete description of
+   the task list of a successful plan, pipeline by pipeline. *)
+Theorem C33_deploy_on_available_and_pinned :
+  forall c word spec ts c',
+    plan_deploy c word spec = (inr ts, c') ->
+    exists tss, ts = concat tss /\
+      Forall2 (fun p tsp =>
+                 map tname tsp = map (fun k => replica_name (pn p) k (N.max (preps p) 1)) (nseq (N.max (preps p) 1)) /\
+                 forall t, In t tsp ->
+                   avail_b c (tw t) = true /\ (forall a, paff p = Some a -> avail_b c a = true -> tw t = a))
+              spec tss.
+Proof.
+  intros c word spec ts c' H. unfold plan_deploy in H. destruct (filter (avail_b c) word); [discriminate|].
+  pose proof (plan_pipelines_tasks word spec c) as HT.
+  destruct (plan_pipelines c word spec) as [[ts0|] c0]; inv H. now apply HT.
+Qed.
+
+Theorem C33_available_means :
+  forall c w, avail_b c w = true <->
+              exists wk, get (workers c) w = Some wk /\ wst wk = WReady /\ wrun wk < wmax wk.
+Proof. exact avail_b_spec. Qed.
+
+(* A migration (manual plan, monolithic migrate, failover / drain target) only goes to an available worker. *)
+Theorem C33_migration_plan_target_available :
+  forall c p g t m, plan_migrate c p g t = inr m -> mtgt m = t /\ avail_b c t = true.
+Proof. exact plan_migrate_target. Qed.
+Theorem C33_migration_target_available :
+  forall c p g t ok c', migrate c p g t ok = (c', inr true) -> avail_b c t = true.
+Proof. exact migrate_target. Qed.
+Theorem C33_failover_target_available :
+  forall c word w t, failover_target c word w = Some t -> avail_b c t = true /\ t <> w.
+Proof. exact failover_target_spec. Qed.
+
+(* The sweep marks exactly the Ready workers whose last heartbeat is older than the timeout... *)
+Theorem C33_sweep_exact :
+  forall c w wk, get (workers c) w = Some wk ->
+    get (workers (fst (sweep c))) w =
+      Some (if wstatus_eqb (wst wk) WReady && Z.ltb (ctimeout c) (cnow c - whb wk) then w_set_status WUnhealthy wk else wk).
+Proof. exact sweep_exact. Qed.
+Theorem C33_sweep_reports_exactly :
+  forall c w wk, NoDup (map fst (workers c)) -> get (workers c) w = Some wk ->
+    (In w (snd (sweep c)) <-> wst wk = WReady /\ (ctimeout c < cnow c - whb wk)%Z).
+Proof. exact sweep_reported. Qed.
+(* ... and never earlier: no other operation turns a Ready worker Unhealthy. *)
+Theorem C33_only_the_sweep_marks_unhealthy :
+  forall s o w,
+    (match o with OSweep | OSetStatus _ _ => False | _ => True end) ->
+    status_of (sc s) w = Some WReady ->
+    status_of (sc (fst (step s o))) w = Some WReady \/ status_of (sc (fst (step s o))) w = None.
+Proof. exact step_keeps_ready. Qed.
+
+(* A heartbeat makes an unhealthy (or ready) worker Ready, refreshes its heartbeat time, and it is
+   available again exactly when the reported count is below its capacity. *)
+Theorem C33_heartbeat_recovers :
+  forall c w n wk, get (workers c) w = Some wk -> wst wk = WUnhealthy \/ wst wk = WReady ->
+    exists wk', get (workers (fst (heartbeat c w n))) w = Some wk' /\
+                wst wk' = WReady /\ whb wk' = cnow c /\ wrun wk' = n /\
+                (avail_b (fst (heartbeat c w n)) w = true <-> n < wmax wk).
+Proof. exact heartbeat_recovers. Qed.
+
+Example C33_sweep_boundary :
+  let s := run (init 3) [ORegister 1 4 10 0; ORegister 2 4 10 0; OAdvance 1; OHeartbeat 2 0; OAdvance 3] in
+  (* worker 1: age 4 > 3, worker 2: age 3 = timeout *)
+  map (fun e => (fst e, wst (snd e))) (workers (fst (sweep (sc s)))) = [(1, WUnhealthy); (2, WReady)].
+Proof. reflexivity. Qed.
